@@ -20,3 +20,7 @@ open Spydr.IR
 #print axioms Spydr.IR.run_refused_prefix
 #print axioms Spydr.Names.names_refused_unchanged
 #print axioms Spydr.Names.names_refused_same_lookups
+#print axioms Spydr.IR.reorder_accepted_iff
+#print axioms Spydr.IR.partner_positional
+#print axioms Spydr.IR.partner_total
+#print axioms Spydr.IR.repoint_keeps_all_connections
